@@ -101,6 +101,9 @@ class Obj:
         # structural equality of the modelled objects, when the checker declares one ('__eqkey'); identity otherwise
         if isinstance(other, (Obj, TextObj)) and '__eqkey' in self.attrs and '__eqkey' in _attrs_of(other):
             return self.attrs['__eqkey'] == _attrs_of(other)['__eqkey']
+        f = self.attrs.get('__dc_fields')
+        if f is not None and self is not other and isinstance(other, Obj) and other.cls is self.cls and other.attrs.get('__dc_fields') == f:
+            return all(self.attrs.get(k) == other.attrs.get(k) for k in f)        # the __eq__ a dataclass generates: field by field
         return self is other
 
     def __ne__(self, other):
@@ -434,8 +437,8 @@ def _shallow_sig(v, _depth=0):
     return None
 
 
-_INTERNAL_KEY = re.compile(r'__rx@\d+_\d+$|__(ia\d+|ik_\w+|caller|gen|yields|ysnap|fuse|iter|list|exitstacks|yf|x\d+|k_\w+|base|idx|val|recv|fn|obj|f)@\d+$|__handling$|__exc$')
-_FRAME_LOCAL = re.compile(r'__rx@\d+_\d+$|__(iter|list|exitstacks|yf)@\d+$|__handling$')
+_INTERNAL_KEY = re.compile(r'__(rx|cm)@\d+_\d+$|__(ia\d+|ik_\w+|caller|gen|yields|ysnap|fuse|iter|list|exitstacks|yf|x\d+|k_\w+|base|idx|val|recv|fn|obj|f)@\d+$|__handling$|__exc$')
+_FRAME_LOCAL = re.compile(r'__(rx|cm)@\d+_\d+$|__(iter|list|exitstacks|yf)@\d+$|__handling$')
 
 
 class _ModuleScope:
@@ -624,7 +627,33 @@ class Interp:
     def st_Pass(self, n, s):
         return {'fall': [(s, None)]}
 
-    st_Global = st_Nonlocal = st_Import = st_ImportFrom = st_Pass
+    st_Global = st_Nonlocal = st_Pass
+
+    def st_Import(self, n, s):
+        if self.heap and self.model is not None:
+            for a in n.names:
+                mod = self.model.modules.get(a.name if a.asname else a.name.split('.')[0])
+                s.env[a.asname or a.name.split('.')[0]] = mod if mod is not None else M.External(a.name if a.asname else a.name.split('.')[0])
+        return {'fall': [(s, None)]}
+
+    def st_ImportFrom(self, n, s):
+        # an import inside a function binds local names (from plasTeX.Imagers import Imager as VectorImager)
+        if self.heap and self.model is not None:
+            scope_mod = self.scope if isinstance(self.scope, M.ModuleInfo) else getattr(self.scope, 'module', None)
+            if scope_mod is not None:
+                base = self.model._abs_from(scope_mod, n)
+                mod = self.model.modules.get(base)
+                for a in n.names:
+                    if a.name == '*':
+                        continue
+                    if mod is None:
+                        s.env[a.asname or a.name] = M.External('%s.%s' % (base, a.name))
+                        continue
+                    r = self.model.resolve_in_module(mod, a.name)
+                    if r is None:
+                        r = self.model.modules.get(base + '.' + a.name)
+                    s.env[a.asname or a.name] = self._from_model(r)
+        return {'fall': [(s, None)]}
 
     def st_FunctionDef(self, n, s):
         fv = Sym('func:%s' % n.name, truthy=True, attrs={'node': n} if isinstance(n, ast.FunctionDef) else None)
@@ -705,6 +734,21 @@ class Interp:
                     except (KeyError, IndexError) as e:
                         if self.precise_exc:
                             s.env['__exc'] = type(e).__name__
+            if isinstance(t, ast.Attribute) and self.heap:
+                base = self.ev(t.value, s)
+                if isinstance(base, Obj):
+                    if t.attr in base.attrs:
+                        del base.attrs[t.attr]
+                    elif self.precise_exc and base.attrs.get('__closed'):
+                        s.env['__exc'] = 'AttributeError'
+                elif isinstance(base, M.ClassInfo):
+                    key = '__cls:%s.%s' % (base.fullname, t.attr)
+                    if key in s.env:
+                        del s.env[key]            # an attribute that the interpreted code had put on the class
+                    elif t.attr in base.assigns or t.attr in base.methods:
+                        self.imprecise.append('del %s removes an attribute the class was defined with (line %s)' % (txt, n.lineno))
+                    elif self.precise_exc:
+                        s.env['__exc'] = 'AttributeError'
             s.env.pop(txt, None)
             self.emit(s, ('del', txt))
             self._invalidate(txt, s)
@@ -1144,15 +1188,31 @@ class Interp:
 
     def st_With(self, n, s):
         states = [s]
-        for item in n.items:
+        early = []
+        for idx, item in enumerate(n.items):
             nxt = []
             for st in states:
                 for s2, v in self.expr(item.context_expr, st):
                     if isinstance(item.context_expr, ast.Call) and _text(item.context_expr.func) in ('contextlib.ExitStack', 'ExitStack') and self.heap:
                         v = Obj('ExitStack@%d' % n.lineno, {'__callbacks': []})
                         s2.env.setdefault('__exitstacks@%d' % n.lineno, v)
+                    if self.precise_exc and '__exc' in s2.env:
+                        early.append(s2)           # the context expression raised: managers entered so far are left again
+                        continue
+                    entered = self._cm_enter(v, s2, n, idx)
+                    if entered is None and not isinstance(v, GenObj) and isinstance(item.context_expr, ast.Call) and self.model is not None:
+                        info_ = self.resolve_callee(item.context_expr, s2)
+                        if info_ is not None and self._is_contextmanager(info_.node):
+                            # (without lazy generator objects the body of the manager has already run to its end)
+                            self.imprecise.append('the context manager %s is not interpreted in this mode: what it does around the block is lost (line %s)'
+                                                  % (info_.fullname, n.lineno))
+                    if entered is not None:
+                        v = entered[0]
+                        if self.precise_exc and '__exc' in s2.env:
+                            early.append(s2)
+                            continue
                     if item.optional_vars is not None:
-                        self.assign(item.optional_vars, v if (not is_concrete(v) or isinstance(v, Obj)) else TOP, s2, n, quiet=True)
+                        self.assign(item.optional_vars, v if (not is_concrete(v) or isinstance(v, Obj) or entered is not None) else TOP, s2, n, quiet=True)
                     nxt.append(s2)
             states = nxt
         supp = []
@@ -1160,8 +1220,89 @@ class Interp:
             for item in n.items:
                 if item.optional_vars is None and isinstance(item.context_expr, ast.Call) and _text(item.context_expr.func) in ('contextlib.suppress', 'suppress'):
                     supp = [_text(a).split('.')[-1] for a in item.context_expr.args]
-        outs = self.block(n.body, states)
+        outs = self.block(n.body, states) if states else {}
+        for st in early:
+            outs.setdefault('raise', []).append((st, st.env.pop('__exc')))
         return self._with_tail(n, outs, supp)
+
+    def _is_contextmanager(self, fnode):
+        return any(_text(d).split('.')[-1] == 'contextmanager' for d in getattr(fnode, 'decorator_list', []))
+
+    def _cm_enter(self, v, s, n, idx):
+        """Entering a context manager of the analysed code: a @contextmanager generator runs up to its yield, an object of a
+        class with __enter__/__exit__ has __enter__ called.  (value bound by `as`,) or None when v is no such manager."""
+        key = '__cm@%d_%d' % (n.lineno, idx)
+        if isinstance(v, GenObj) and self._is_contextmanager(v.node):
+            item = self.gen_next(v, s)
+            if '__exc' in s.env:
+                return (TOP,)
+            if item is None or item is STOP:
+                self.imprecise.append('the context manager %s did not yield deterministically (line %s)' % (v.fname, n.lineno))
+                return (TOP,)
+            s.env[key] = v
+            return (None if item is _NONE_ITEM else item,)
+        if isinstance(v, Obj) and isinstance(v.cls, M.ClassInfo) and self.model is not None and self.inline_depth > 0 \
+           and self.model.find_method(v.cls, '__enter__') is not None and self.model.find_method(v.cls, '__exit__') is not None:
+            r = self._call_obj_method(v, '__enter__', [], s, n.lineno)
+            if r is None:
+                self.imprecise.append('%s.__enter__ could not be interpreted (line %s)' % (v.label, n.lineno))
+                return (TOP,)
+            if '__exc' not in s.env:
+                s.env[key] = v
+            return (r[0],)
+        return None
+
+    def _cm_exit(self, cm, kind, st, exc, n):
+        """Leaving the with block: the outcome kind afterwards ('same', 'fall' when the exception was swallowed, 'raise')."""
+        if isinstance(cm, GenObj):
+            if kind != 'raise':
+                item = self.gen_next(cm, st)
+                if '__exc' in st.env:
+                    return 'raise'
+                if item is not STOP:
+                    self.imprecise.append('the context manager %s did not stop after its yield (line %s)' % (cm.fname, n.lineno))
+                return 'same'
+            name = exc if isinstance(exc, str) else getattr(exc, 'label', None) or 'Exception'
+            st.env.pop('__exc', None)
+            item = self.gen_next(cm, st, throw=exc if exc is not None else name)
+            if '__exc' in st.env:
+                return 'raise'
+            if item is STOP:
+                return 'fall'            # the generator handled the exception and finished: the with statement swallows it
+            self.imprecise.append('the context manager %s did not stop after an exception was thrown into it (line %s)' % (cm.fname, n.lineno))
+            return 'same'
+        args = [None, None, None] if kind != 'raise' else [Sym('exctype:%s' % (exc if isinstance(exc, str) else getattr(exc, 'label', '?')), truthy=True),
+                                                          exc if not isinstance(exc, str) else Sym('exc:%s' % exc, truthy=True), Sym('traceback', truthy=True)]
+        pending = st.env.pop('__exc', None)
+        r = self._call_obj_method(cm, '__exit__', args, st, n.lineno)
+        if r is None:
+            self.imprecise.append('%s.__exit__ could not be interpreted (line %s)' % (cm.label, n.lineno))
+            return 'same'
+        if '__exc' in st.env:
+            return 'raise'
+        if kind == 'raise':
+            t = self.truth_in(r[0], st)
+            if t is None:
+                self.imprecise.append('whether %s.__exit__ swallows the exception is not determined (line %s)' % (cm.label, n.lineno))
+            elif t:
+                return 'fall'
+            if pending is not None:
+                st.env['__exc'] = pending
+        return 'same'
+
+    def _call_obj_method(self, obj, mname, args, s, lineno):
+        """obj.<mname>(args) for a heap object; (result,) when the call has exactly one outcome, else None."""
+        names = self._with_temps({'__obj': obj}, s)
+        names.update(self._with_temps({'__x%d' % i: a for i, a in enumerate(args)}, s))
+        call = ast.Call(func=ast.Attribute(value=ast.Name(id=names['__obj'], ctx=ast.Load()), attr=mname, ctx=ast.Load()),
+                        args=[ast.Name(id=names['__x%d' % i], ctx=ast.Load()) for i in range(len(args))], keywords=[])
+        for x in ast.walk(call):
+            x.lineno, x.col_offset, x.end_lineno, x.end_col_offset = lineno, 0, lineno, 0
+        try:
+            return self._inline_single(call, s)
+        finally:
+            for nm_ in names.values():
+                s.env.pop(nm_, None)
 
     def _with_tail(self, n, outs, supp=None):
         if supp is None:
@@ -1184,6 +1325,22 @@ class Interp:
                         self.imprecise.append('whether suppress() swallows the exception is not determined (line %s)' % n.lineno)
                     kept.append((st, exc))
             outs['raise'] = kept
+        if any(k.startswith('__cm@%d_' % n.lineno) for lst in outs.values() for st, _v in lst for k in st.env):
+            res = {}
+            for kind, lst in outs.items():
+                for st, v in lst:
+                    k2, exc = kind, v
+                    for idx in reversed(range(len(n.items))):
+                        cm = st.env.pop('__cm@%d_%d' % (n.lineno, idx), None)
+                        if cm is None:
+                            continue
+                        r = self._cm_exit(cm, k2, st, exc, n)
+                        if r == 'raise':
+                            k2, exc = 'raise', st.env.pop('__exc')
+                        elif r == 'fall':
+                            k2, exc = 'fall', None
+                    res.setdefault(k2, []).append((st, exc if k2 == 'raise' else (v if k2 == kind else None)))
+            outs = res
         key = '__exitstacks@%d' % n.lineno
         if any(key in st.env for lst in outs.values() for st, _v in lst):
             # leaving the with block by any route runs the registered callbacks, last in first out
@@ -1668,7 +1825,7 @@ class Interp:
                 return m.node, False, m
             return m.node, True, m
         if isinstance(f, ast.Attribute) and isinstance(f.value, (ast.Name, ast.Attribute)) and self.model is not None and fn is not None \
-           and f.attr.startswith('_') and not f.attr.startswith('__') and _text(f) not in s.env:
+           and ((f.attr.startswith('_') and not f.attr.startswith('__')) or re.match(r'_[A-Za-z]', _text(f.value).split('.')[-1])) and _text(f) not in s.env:
             root = f.value
             while isinstance(root, ast.Attribute):
                 root = root.value
@@ -2415,6 +2572,8 @@ class Interp:
                 dyn = self._dynamic_class_attr(base, attr, s)
                 if dyn is not None:
                     return dyn[0]
+                if attr in ('__name__', '__qualname__', '__module__') and attr not in base.assigns:
+                    return {'__name__': base.name, '__qualname__': base.qualname, '__module__': base.module.name}[attr]
                 v = m.class_const(base, attr)
                 if not M.is_unknown(v):
                     return v
@@ -3550,10 +3709,15 @@ class Interp:
             if shared(k):
                 dst[k] = val
 
-    def gen_next(self, gen, s):
-        """Resume the generator object `gen` until its next yield.  The item, STOP, or None when the run is not deterministic."""
-        if gen.pc == 'done':
+    def gen_next(self, gen, s, throw=None):
+        """Resume the generator object `gen` until its next yield (throw: with that exception raised at the yield it is suspended
+        at).  The item, STOP, or None when the run is not deterministic."""
+        if gen.pc == 'done' or (throw is not None and gen.pc is None):
+            gen.pc = 'done'
+            if throw is not None:
+                s.env['__exc'] = throw
             return STOP
+        self._throw_at = throw
         if len(self._lazy_active) > 12:
             raise AnalysisError('generators nested too deeply (%s)' % gen.fname)
         same_self = gen.env.get('self') is s.env.get('self')
@@ -3693,7 +3857,10 @@ class Interp:
         stmts, idx = chain[depth]
         st = stmts[idx]
         if depth == len(chain) - 1:
-            if isinstance(st, (ast.Expr, ast.Assign)) and isinstance(st.value, ast.YieldFrom):
+            if getattr(self, '_throw_at', None) is not None:
+                outs = {'raise': [(cs, self._throw_at)]}          # generator.throw(): the exception is raised at the yield
+                self._throw_at = None
+            elif isinstance(st, (ast.Expr, ast.Assign)) and isinstance(st.value, ast.YieldFrom):
                 outs = self._lazy_yield_from(st, cs)
             elif isinstance(st, ast.Assign):
                 for t in st.targets:
@@ -3781,6 +3948,17 @@ class Interp:
             probe = None
         self._receiver, self._force_callee = saved_recv, saved_forced
         return probe is not None
+
+    def resolve_callee(self, call, s):
+        """The function of the analysed code that this call reaches (FunctionInfo), or None - for hooks that recognise a callee by
+        what it is, whatever name or alias the call site uses."""
+        saved_recv, saved_forced = getattr(self, '_receiver', None), getattr(self, '_force_callee', None)
+        try:
+            probe = self._callee(self._norm_call(call, s), s)
+        except AnalysisError:
+            probe = None
+        self._receiver, self._force_callee = saved_recv, saved_forced
+        return probe[2] if probe is not None and isinstance(probe[2], M.FunctionInfo) else None
 
     def _is_generator_call(self, call, s):
         saved_recv, saved_forced = getattr(self, '_receiver', None), getattr(self, '_force_callee', None)
@@ -4068,6 +4246,31 @@ class Interp:
                 ast.copy_location(new.func.value, f.value)
                 cache[ck] = (new, call)
             call = cache[ck][0]
+        if isinstance(f, ast.Attribute) and isinstance(f.value, ast.Call) and isinstance(f.value.func, ast.Name) and f.value.func.id == 'super' \
+           and not f.value.args and self.model is not None and isinstance(getattr(self.scope, 'cls', None), M.ClassInfo) and 'super' not in s.env:
+            # super().m(args) where the next definition of m is that of a builtin base (dict, list, ...): the call dict.m(self, args)
+            me = s.env.get('self')
+            start = me.cls if isinstance(me, Obj) and isinstance(me.cls, M.ClassInfo) else self.scope.cls
+            mro = list(self.model.mro(start))
+            if self.scope.cls in mro:
+                for k_ in mro[mro.index(self.scope.cls) + 1:]:
+                    if isinstance(k_, M.ClassInfo):
+                        if f.attr in k_.methods or f.attr in k_.assigns:
+                            break
+                    elif isinstance(k_, M.External) and k_.name.split('.')[-1] in ('dict', 'list', 'str', 'tuple', 'set') \
+                            and hasattr(_BUILTIN_TYPES[k_.name.split('.')[-1]], f.attr) and k_.name.split('.')[-1] not in s.env:
+                        cache = self.__dict__.setdefault('_norm_cache', {})
+                        ck = (id(call), 'super')
+                        if ck not in cache:
+                            new = ast.Call(func=ast.Attribute(value=ast.Name(id=k_.name.split('.')[-1], ctx=ast.Load()), attr=f.attr, ctx=ast.Load()),
+                                           args=[ast.Name(id='self', ctx=ast.Load())] + list(call.args), keywords=call.keywords)
+                            ast.copy_location(new, call)
+                            ast.copy_location(new.func, f)
+                            ast.copy_location(new.func.value, f.value)
+                            ast.copy_location(new.args[0], f.value)
+                            cache[ck] = (new, call)
+                        call = cache[ck][0]
+                        break
         k = 0
         while isinstance(call.func, ast.IfExp) and k < 4:
             k += 1
@@ -4503,6 +4706,9 @@ class Interp:
                     s.env.pop(key, None)
                     for nm_ in tmp.values():
                         s.env.pop(nm_, None)
+                elif init is None and isinstance(o, Obj) and self.model is not None and self._dataclass_fields(fval) is not None:
+                    if not self._dataclass_init(o, fval, list(args), dict(kwargs), s, n):
+                        self.imprecise.append('the generated __init__ of the dataclass %s could not be interpreted (line %s)' % (fval.name, n.lineno))
                 elif init is None and isinstance(o, Obj) and self.model is not None \
                         and all(isinstance(k, M.ClassInfo) or getattr(k, 'name', '') in ('object', 'builtins.object') for k in self.model.mro(fval)):
                     o.attrs['__closed'] = True        # no __init__ anywhere in a fully known MRO: a new object has no instance attributes
@@ -4584,6 +4790,74 @@ class Interp:
             # a computed callee (a dispatch table, a conditional, the result of another call) that was not followed: whatever it does is lost
             self.imprecise.append('the callee of %s(...) is computed and was not followed: its effect is lost (line %s)' % (_text(n.func)[:50], n.lineno))
         return TOP
+
+    def _dataclass_fields(self, cls):
+        """[(field name, default expression or None, defining class)] of a @dataclass class in the order of its generated __init__;
+        None when cls is not a dataclass."""
+        cache = self.__dict__.setdefault('_dc_cache', {})
+        if cls.fullname in cache:
+            return cache[cls.fullname]
+
+        def is_dc(k):
+            return any(_text(d).split('(')[0].split('.')[-1] == 'dataclass' for d in getattr(k.node, 'decorator_list', []))
+        res = None
+        if is_dc(cls):
+            fields = {}
+            for k in reversed([k for k in self.model.mro(cls) if isinstance(k, M.ClassInfo)]):
+                if not is_dc(k):
+                    continue
+                for st in k.node.body:
+                    if isinstance(st, ast.AnnAssign) and isinstance(st.target, ast.Name) and 'ClassVar' not in _text(st.annotation):
+                        fields[st.target.id] = (st.target.id, st.value, k)
+            res = list(fields.values())
+        cache[cls.fullname] = res
+        return res
+
+    def _dataclass_init(self, o, cls, args, kwargs, s, n):
+        fields = self._dataclass_fields(cls)
+        if len(args) > len(fields) or any(k not in [f[0] for f in fields] for k in kwargs):
+            if self.precise_exc:
+                s.env['__exc'] = 'TypeError'
+            return True
+        dec = [d for d in cls.node.decorator_list if _text(d).split('(')[0].split('.')[-1] == 'dataclass'][0]
+        opts = {k.arg: getattr(k.value, 'value', None) for k in dec.keywords} if isinstance(dec, ast.Call) else {}
+        names = []
+        for i, (name, default, owner) in enumerate(fields):
+            if i < len(args):
+                if name in kwargs:
+                    if self.precise_exc:
+                        s.env['__exc'] = 'TypeError'
+                    return True
+                v = args[i]
+            elif name in kwargs:
+                v = kwargs[name]
+            elif default is None:
+                if self.precise_exc:
+                    s.env['__exc'] = 'TypeError'        # a required field was not given
+                return True
+            else:
+                if isinstance(default, ast.Call) and _text(default.func).split('.')[-1] == 'field':
+                    kw = {k.arg: k.value for k in default.keywords}
+                    if 'default_factory' in kw and _text(kw['default_factory']) in ('list', 'dict', 'set', 'tuple'):
+                        v = {'list': list, 'dict': dict, 'set': set, 'tuple': tuple}[_text(kw['default_factory'])]()
+                    elif 'default' in kw:
+                        v = self._from_model(self.model.eval_const(owner, kw['default']))
+                    else:
+                        return False
+                else:
+                    v = self.getattr(owner, name, n, s)        # the class attribute holds the default
+                if v is TOP:
+                    return False
+            o.attrs[name] = v
+            names.append(name)
+        if opts.get('eq', True) is not False:
+            o.attrs['__dc_fields'] = tuple(names)
+        o.attrs['__closed'] = True
+        if self.model.find_method(cls, '__post_init__') is not None:
+            r = self._call_obj_method(o, '__post_init__', [], s, n.lineno)
+            if r is None:
+                return False
+        return True
 
     def _builtin_method(self, recv, meth, args, kwargs):
         if isinstance(recv, M._StringLetters):
@@ -4862,6 +5136,8 @@ def private_only(fname, node, info):
     """should_inline filter: interpret in place only private helpers (leading underscore, not dunder) and nested functions;
     public methods stay calls (they are the interface the rules are stated against)."""
     name = getattr(node, 'name', '')
+    if info is not None and getattr(info, 'cls', None) is not None and re.match(r'_[A-Za-z]', info.cls.name):
+        return True                 # any method of a private helper class (`_Name`) is an implementation detail
     return info is None or (name.startswith('_') and not name.startswith('__'))
 
 
